@@ -1,12 +1,18 @@
 (* Correspondence cases for C09: evaluated by vm_compute on cases written by
    the harness from the behaviour observed on the real merge handler under
    scripted children.  A case is a whole history: every input with what the
-   client received before the session was quiescent again. *)
-From Moc Require Import Base Match Merge.
+   client received before the session was quiescent again.
+
+   [MCase]: one session.  [MMulti]: k sessions of ONE handler value (the same
+   NewMergeHandler result serves k connections); every step carries its
+   session.  The model of the handler is the product of k session models
+   (MergeMulti.v), the oracle judges what each session saw on its own. *)
+From Moc Require Import Base Match Merge MergeMulti.
 Open Scope Z_scope.
 
 Inductive case :=
-| MCase (n : nat) (failed : bool) (t : otrace).
+| MCase (n : nat) (failed : bool) (t : otrace)
+| MMulti (n : nat) (failed : bool) (k : nat) (t : mtrace).
 
 (** (the model reproduces the observation step by step,
      the C09 oracle accepts the observation) *)
@@ -18,4 +24,10 @@ Definition run_case (c : case) : bool * bool :=
                       | None => false
                       end,
        negb failed && c09_oracle n t)
+  | MMulti n failed k t =>
+      (negb failed && match new_handler n k with
+                      | Some ss => multi_agrees ss t
+                      | None => false
+                      end,
+       negb failed && c09_multi_oracle n k t)
   end.
